@@ -447,6 +447,83 @@ def comment_after_minus(R, ctx):
     R.require(rid, "floor:generators", n_gen >= 1, "", "%d trivia-writing generators evaluated" % n_gen)
 
 
+def patterns_compiled_separately(R, ctx):
+    """A comment is kept when ONE of the configured patterns matches it: each pattern must keep its own flags and groups."""
+    rid = "C18.patterns"
+    lib = ctx.lib
+    R.rule(rid, "provenance rule on every `Regex::new` in the rules: the text compiled is one configured pattern as given (a parameter, a "
+                "property value, an element of the configured list) -- never the product of join / concat / format! / push_str / collect or of "
+                "another regex's source: merged into one alternation, an inline flag such as `(?i)` or `(?m)` of one pattern applies to all "
+                "patterns after it and equal group names collide, so comments nobody configured would be kept (or the rule would panic)")
+    BUILD = {"join", "concat", "format", "push_str", "push", "extend", "collect", "from_iter", "as_str", "repeat", "insert_str", "replace"}
+    n = 0
+    for f in lib.fn_list:
+        b = thir.body_of(f)
+        if not b or "::test" in f["path"] or not (f["path"].startswith("rules::") or f["path"].startswith("<rules::")):
+            continue
+        fa = None
+        for c in thir.walk(b):
+            if c.get("k") == "Call" and c.get("fname") == "new" and (callee_of(c) or c.get("fn") or "").startswith("regex::") and c["args"]:
+                fa = fa or ctx.an.fa(f["path"])
+                via = sorted({y.get("fname") for y in fa.source_calls(c["args"][0]) if y.get("fname") in BUILD and
+                              (y.get("fname") != "as_str" or "regex::" in (callee_of(y) or y.get("fn") or ""))})
+                n += 1
+                R.ob(rid, "%s|pattern-as-configured" % f["path"].split("::<")[0][-60:], not via, ctx.where(f, c.get("ln")),
+                     "compiled from one configured pattern" if not via else "the compiled text is assembled with %s: patterns are merged before compilation" % via)
+    R.require(rid, "floor:compilations", n >= 1, "", "%d Regex::new calls in the rules (positive control)" % n)
+
+
+def pending_comment_respected(R, ctx):
+    """Whoever appends text to the line-keeping generator's buffer must first ask whether a line comment is still open."""
+    rid = "C18.pending-comment"
+    lib = ctx.lib
+    G = "generator::token_based::TokenBasedLuaGenerator"
+    R.rule(rid, "who-may-write rule in the line-keeping generator: every function that appends to the output (through the counting "
+                "primitive or directly) consults the pending-line-comment flag (the generator's bool field) or the helper that closes the "
+                "comment, in the same function: text appended blindly after a kept `-- comment` becomes part of the comment")
+    a = lib.adts.get(G)
+    if not R.require(rid, "anchor:generator", a is not None, "", "generator not found"):
+        return
+    flags = [f["name"] for f in a["variants"][0]["fields"] if f["tys"] == "bool"]
+    bufs = [f["name"] for f in a["variants"][0]["fields"] if f["tys"] == "alloc::string::String"]
+    if not R.require(rid, "anchor:fields", len(flags) == 1 and len(bufs) == 1, ctx.adt_where(G), "bool fields %s, String fields %s" % (flags, bufs)):
+        return
+    methods = [f for f in lib.fn_list if thir.body_of(f) and (f["path"].startswith(G + "::") or f["path"].startswith("<" + G)) and "::test" not in f["path"]]
+    # the counting primitive: the method that appends its argument to the buffer
+    prims = set()
+    for f in methods:
+        fa = ctx.an.fa(f["path"])
+        for c in thir.calls(f):
+            if c.get("fname") == "push_str" and callee_of(c) not in lib.fns and c["args"] and any(o == (G, bufs[0]) for o in fa.origins(c["args"][0])) \
+                    and len(c["args"]) > 1 and any(o[0] == "#param" for o in fa.origins(c["args"][1])):
+                prims.add(f["path"])
+    R.require(rid, "anchor:primitive", len(prims) >= 1, "", "counting primitive(s): %s" % sorted(p.split("::")[-1] for p in prims))
+    closers = {f["path"] for f in methods if any(n.get("k") in ("Assign",) and n["l"].get("k") == "Field" and n["l"].get("f") == flags[0] and n["r"].get("v") == "false" for n in thir.walk(thir.body_of(f)))}
+    n = 0
+    for f in methods:
+        if f["path"] in prims:
+            continue
+        fa = ctx.an.fa(f["path"])
+        writes = []
+        for c in thir.calls(f):
+            cal = callee_of(c) or ""
+            if cal in prims:
+                writes.append(c)
+            elif c.get("fname") in ("push_str", "push") and cal not in lib.fns and c["args"] and any(o == (G, bufs[0]) for o in fa.origins(c["args"][0])):
+                lit = c["args"][1] if len(c["args"]) > 1 else {}
+                if c.get("fname") == "push" and lit.get("k") == "Lit" and lit.get("v") in ("' '", "'\\n'"):
+                    continue        # separators and the line padding
+                writes.append(c)
+        if not writes:
+            continue
+        n += 1
+        asks = any(x.get("k") == "Field" and x.get("f") == flags[0] and x.get("adt") == G for x in thir.walk(thir.body_of(f))) or \
+            any((callee_of(c) or "") in closers for c in thir.calls(f))
+        R.ob(rid, "%s|asks-before-writing" % f["path"].split("::")[-1], asks, ctx.where(f, writes[0].get("ln")),
+             "consults the pending-comment flag" if asks else "appends text without looking at the pending line comment: after `-- c` the text joins the comment")
+    R.require(rid, "floor:writers", n >= 3, "", "%d writing functions" % n)
+
+
 def run(R, ctx):
     R.explanation = (
         "Static coverage proof over the AST type graph (derived from the ADT facts): every slot that can hold a Token is "
@@ -469,5 +546,7 @@ def run(R, ctx):
     shift_only_at_start(R, ctx)
     closer_checked(R, ctx)
     line_comment_classifier(R, ctx)
+    patterns_compiled_separately(R, ctx)
+    pending_comment_respected(R, ctx)
     braces_kept_apart(R, ctx)
     comment_after_minus(R, ctx)
